@@ -71,7 +71,9 @@ func checkDesc(c *pbt.Ctx, cs DescCase) {
 	}
 	desc := comp.Svc.LookupMethodByName("Call").Input()
 
-	composite := usesKind(ref, func(fd protoreflect.FieldDescriptor) bool { return fd.IsList() || fd.IsMap() || fd.Kind() == protoreflect.MessageKind })
+	composite := usesKind(ref, func(fd protoreflect.FieldDescriptor) bool {
+		return fd.IsList() || fd.IsMap() || fd.Kind() == protoreflect.MessageKind
+	})
 	if composite {
 		c.NonTrivial()
 		c.Class("composite")
